@@ -42,6 +42,7 @@ def H(mod):
 
 TYPES, MVD, RLE, MBK = H("types"), H("decoder::cpu::mvd_pred"), H("decoder::cpu::rle"), H("parser::macroblock")
 GATH = H("decoder::cpu::gather")
+PICT, STAT = H("decoder::picture"), H("decoder::state")
 
 
 def _w(h, name, nbytes, tries=4000):
@@ -80,6 +81,22 @@ def kani_harnesses(prop, tier):
         hs.append(dict(RLE, name="single_intra", nbytes=5, timeout=900, what="same with an INTRADC code (all valid codes): DC == Table 15 level, event lands one position later"))
         hs.append(dict(RLE, name="zigzag", nbytes=0, what="DEZIGZAG_MAPPING == Figure 14/H.263 (64 entries)"))
         hs.append(dict(TYPES, name="intradc", nbytes=1, what="IntraDc::from_u8 / into_level == Table 15 for all 256 codes (0 and 128 rejected, 255 -> 1024, else 8*code)"))
+    if prop in ("C01", "C04", "C05", "C13"):
+        # discharge of what the Verus state/picture units assume about floats, lazy_statics and the bitflags model (R6, A-BITFLAGS)
+        hs.append(dict(STAT, name="ceil_div16", nbytes=2, what="R6: `(x as f64 / 16.0).ceil() as usize` == (x + 15) / 16 for every u16 (macroblocks per line / rows)"))
+        hs.append(dict(STAT, name="option_masks", nbytes=0, what="R6: *OPPTYPE_OPTIONS == 0x1FF8 and *MPPTYPE_OPTIONS == 0xE000 on the real lazy_statics"))
+        hs.append(dict(STAT, name="bitflags_model", nbytes=9, what="A-BITFLAGS: |, &, !, contains, empty and the flag constants of the real bitflags-generated PictureOption / DecoderOption agree with the `bits` model used in the Verus units, all 2^17 x 2^17 operand pairs"))
+        hs.append(dict(PICT, name="ceil_half", nbytes=2, what="R6: `(w as f32 / 2.0).ceil() as usize` == (w + 1) / 2 for every u16 (chroma plane width / height)"))
+    if prop == "C13":
+        hs.append(dict(PICT, name="new_sizes", nbytes=2, what="DecodedPicture::new on the real code, all (w, h) <= 40: luma w*h, chroma ceil(w/2)*ceil(h/2), chroma row ceil(w/2); Reserved -> None", bound="w, h <= 40 (the Verus proof of the same function is unbounded)"))
+        hs.append(dict(DEBLOCK, name="table_j2", nbytes=0, what="QUANT_TO_STRENGTH[1..=31] == Table J.2 (hence in 1..=12, the strengths deblock accepts)"))
+        for name, w, h in shapes("hooks/deblock/shapes.rs", "geom"):
+            if (w, h) in {(1, 1), (3, 1), (9, 2), (10, 9)} or (tier == "thorough" and w <= 12 and h >= 1):
+                hs.append(dict(DEBLOCK, name=name, nbytes=w * h + 1, timeout=900, what="deblock accepts a %dx%d plane with every strength 1..=12 without panic (plane of a decoded picture)" % (w, h), bound="plane %dx%d" % (w, h)))
+        for name, w, h in shapes("hooks/yuv/shapes.rs", "geom"):
+            if (w, h) in {(1, 1), (2, 1), (3, 2), (5, 3), (9, 2)} or tier == "thorough":
+                cn = ((w + 1) // 2) * ((h + 1) // 2)
+                hs.append(dict(YUV, name=name, nbytes=w * h + 2 * cn, timeout=900, what="yuv420_to_rgba accepts the planes of a %dx%d picture and returns exactly w*h pixels" % (w, h), bound="picture %dx%d" % (w, h)))
     if prop == "C03":
         for n, w in [("lerp_params", "HalfPel::into_lerp_parameters == (floor(v/2), v odd) for every i16 (contract assumed by the Verus gather unit)"),
                      ("chroma_round", "HalfPel::average_sum_of_mvs == Table 16 rounding of sum/8 for every i16 sum"),
@@ -156,6 +173,14 @@ PROPS["C01"] = dict(
     level_text="deductive proof (Verus) of the real text of decode_next_picture (350 lines, lambda-lifted), the H263State/DecodedPicture methods and the type helpers: every arithmetic operation, index, slice, division, unwrap and callee precondition on the decode path is discharged for ALL header values, picture sizes, macroblock counts, bit strings and decoder histories (representation invariant wf), and the macroblock loop carries a decreases measure (remaining bits), so it terminates; callee kernels and parsers are verified against the same shared contracts in their own units. One open known finding (D12: HalfPel overflow in UMV+PLUSPTYPE mode)",
     level_note=VERUS_NOTE + "; A-READ: the byte source is finite; A-F32-TOTAL: float arithmetic never traps",
     assumptions=["A-READER: reader operations by contract (C14 proves them on the real reader for bounded buffers)", "A-CORE, A-BITFLAGS, A-CAP (see DESIGN.md section 6)", "allocation failure excluded (property statement)"],
+)
+PROPS["C13"] = dict(
+    level="proof", engine="verus+kani",
+    verus=[dict(unit="c13"), dict(unit="state")],
+    functions=["h263::decoder::picture::DecodedPicture::{new,as_*_mut,...}", "interface lemma DecodedPicture -> deblock::deblock / yuv::bt601::yuv420_to_rgba", "h263::decoder::state::H263State::decode_next_picture (post_last_some)"],
+    level_text="deductive proof (Verus), unbounded in width and height: DecodedPicture::new establishes luma = w*h, chroma = ceil(w/2)*ceil(h/2), chroma row = ceil(w/2) for every u16 w,h (f32 ceil expression discharged exhaustively by Kani); the *_mut accessors hand out slices (length frame); decode_next_picture stores only pictures with pic_ok (sizes consistent, w,h >= 1) for every history; the interface lemma shows these relations imply the documented preconditions of deblock and yuv420_to_rgba for each plane and that the output has 4*w*h bytes. That the two callees then do not panic is proved per concrete size only (C08/C16 harnesses, BOUNDED: the sizes listed in the evidence)",
+    level_note=VERUS_NOTE + "; callee panic-freedom is bounded in picture size (C08, C16)",
+    assumptions=["callee panic-freedom bounded in size (C08/C16)", "QUANT_TO_STRENGTH range via the Table J.2 harness"],
 )
 PROPS["C03"] = dict(
     level="proof", engine="verus+kani",
